@@ -54,6 +54,8 @@ def _shift(x, loff, boff, poff, cmap):
         x["l"] += loff
     if isinstance(x.get("promoted"), int):
         x["promoted"] += poff
+    if isinstance(x.get("fnargs"), list):
+        x["fnargs"] = [next((new + a[len(old):] for old, new in cmap.items() if isinstance(a, str) and a.startswith(old)), a) for a in x["fnargs"]]
     if isinstance(x.get("closure"), str):
         for old, new in cmap.items():
             if x["closure"].startswith(old):
@@ -78,7 +80,7 @@ def _shift_term(t, loff, boff, poff, cmap, unwind_to):
         t.update({"k": "goto", "target": unwind_to, "line": 0, "exp": False})
 
 
-def _inline_one(F, H, bi, serial, all_bodies, new_bodies):
+def _inline_one(F, H, bi, serial, all_bodies, new_bodies, argmap=None):
     """splice helper body H into F at the call in block bi"""
     fm, hm = F["mir"], H["mir"]
     call = fm["blocks"][bi]["term"]
@@ -96,7 +98,7 @@ def _inline_one(F, H, bi, serial, all_bodies, new_bodies):
             nb["parent"] = top if F["kind"] == "closure" else F["path"]
             dp = cb.get("direct_parent") or hp
             nb["direct_parent"] = F["path"] if dp == hp else tag + dp[len(hp):]
-            _shift({"x": [st for b_ in nb["mir"]["blocks"] for st in b_["stmts"]]}, 0, 0, 0, cmap)
+            _shift({"x": [st for b_ in nb["mir"]["blocks"] for st in b_["stmts"]] + [b_["term"] for b_ in nb["mir"]["blocks"]]}, 0, 0, 0, cmap)
             new_bodies.append(nb)
     fm["locals"] += copy.deepcopy(hm["locals"])
     F.setdefault("promoted", [])
@@ -266,9 +268,36 @@ def _inline_one(F, H, bi, serial, all_bodies, new_bodies):
             else:
                 blocks[ai]["term"] = goto(landing_for("?"))
     blk = blocks[bi]
-    for i, a in enumerate(call.get("args", [])):
-        blk["stmts"].append({"k": "assign", "pl": {"l": loff + 1 + i, "p": []}, "rv": {"k": "use", "op": copy.deepcopy(a)}, "line": line})
+    if argmap is None:
+        for i, a in enumerate(call.get("args", [])):
+            blk["stmts"].append({"k": "assign", "pl": {"l": loff + 1 + i, "p": []}, "rv": {"k": "use", "op": copy.deepcopy(a)}, "line": line})
+    else:
+        for cl, rv in argmap:
+            blk["stmts"].append({"k": "assign", "pl": {"l": loff + cl, "p": []}, "rv": copy.deepcopy(rv), "line": line})
     blk["term"] = goto(boff)
+
+
+def _closure_of_operand(F, op, depth=0):
+    """path of the closure literal an operand denotes (through moves, copies and borrows inside the body), else None"""
+    pl = op.get("pl") if isinstance(op, dict) else None
+    if not pl or depth > 8:
+        return None
+    l = pl["l"]
+    defs = []
+    for blk in F["mir"]["blocks"]:
+        for st in blk["stmts"]:
+            if st["k"] == "assign" and st["pl"]["l"] == l and not st["pl"]["p"]:
+                defs.append(st["rv"])
+    if len(defs) != 1:
+        return None
+    rv = defs[0]
+    if rv["k"] == "agg" and rv.get("agg") == "closure":
+        return rv.get("closure")
+    if rv["k"] == "use":
+        return _closure_of_operand(F, rv["op"], depth + 1)
+    if rv["k"] == "ref" and not [p_ for p_ in rv["pl"]["p"] if p_["k"] != "deref"]:
+        return _closure_of_operand(F, {"pl": {"l": rv["pl"]["l"], "p": []}}, depth + 1)
+    return None
 
 
 def inline_helpers(j, known=None):
@@ -359,6 +388,46 @@ def inline_helpers(j, known=None):
             if p in cand and p != F["path"] and len(F["mir"]["blocks"]) < MAX_BLOCKS:
                 serial[0] += 1
                 _inline_one(F, cand[p], bi, serial[0], bodies, new_bodies)
+        # a helper that takes a closure and calls it (`with_store(|s| ..)`): once the helper is spliced in, the closure it calls is a
+        # closure literal of this very body - splice its body in as well (only inside spliced blocks: the function's own code is left as is)
+        rounds = 0
+        while len(F["mir"]["blocks"]) > n0 and rounds < 4:
+            rounds += 1
+            did = False
+            for bi in range(n0, len(F["mir"]["blocks"])):
+                blk = F["mir"]["blocks"][bi]
+                t = blk["term"]
+                if blk.get("cleanup") or t.get("k") != "call" or t.get("_closure_done"):
+                    continue
+                fn = (t.get("func") or {}).get("fn") or {}
+                if fn.get("name") not in ("call_once", "call", "call_mut") or not (fn.get("trait") or "").startswith("std::ops::Fn") or len(t.get("args", [])) != 2:
+                    continue
+                cpath = _closure_of_operand(F, t["args"][0])
+                cb = next((b_ for b_ in bodies + new_bodies if b_["path"] == cpath), None) if cpath else None
+                t["_closure_done"] = True
+                if cb is None or len(F["mir"]["blocks"]) >= MAX_BLOCKS:
+                    continue
+                env, tup = t["args"][0], t["args"][1]
+                am = []
+                want_ref = cb["mir"]["locals"][1]["ty"].startswith("&")
+                env_local_ty = F["mir"]["locals"][env["pl"]["l"]]["ty"] if env.get("pl") and not env["pl"]["p"] else ""
+                if want_ref and not env_local_ty.startswith("&") and env.get("pl"):
+                    am.append((1, {"k": "ref", "mut": False, "pl": env["pl"]}))
+                else:
+                    am.append((1, {"k": "use", "op": env}))
+                nargs = cb["mir"]["argc"] - 1
+                if nargs > 0:
+                    if not tup.get("pl"):
+                        continue
+                    for i_ in range(nargs):
+                        pl = copy.deepcopy(tup["pl"])
+                        pl["p"] = pl["p"] + [{"k": "field", "i": i_, "n": str(i_), "of": None, "ty": cb["mir"]["locals"][2 + i_]["ty"]}]
+                        am.append((2 + i_, {"k": "use", "op": {"k": "move", "pl": pl}}))
+                serial[0] += 1
+                _inline_one(F, cb, bi, serial[0], bodies, new_bodies, argmap=am)
+                did = True
+            if not did:
+                break
         return new_bodies
     # bottom-up: first the helpers themselves (and their closures), then everybody else
     for p in order:
